@@ -36,10 +36,16 @@ def attr_specs(vec):
     if decl['t']['k'] == 'routeunion':
         cfg = 'namespace stone_cfg\n\nunion Route\n    a1\n'
     else:
-        line = '    a1 %s' % render_type(decl['t'], 'stone_cfg', schema)
+        inh = vec.get('inh', False)
+        line = '    a1 %s' % render_type(decl['t'], 'nsb' if inh else 'stone_cfg', schema)
         if decl['d']['k'] != 'absent':
             line += ' = ' + render_lit(decl['d'])
-        cfg = 'namespace stone_cfg\n\nimport nsb\n\nstruct Route\n%s\n' % line
+        if inh:
+            # the attribute is declared by a struct of nsb that the schema extends; the schema adds one of its own
+            nsb += '\nstruct RouteBase\n%s\n' % line
+            cfg = 'namespace stone_cfg\n\nimport nsb\n\nstruct Route extends nsb.RouteBase\n    own String = "o"\n'
+        else:
+            cfg = 'namespace stone_cfg\n\nimport nsb\n\nstruct Route\n%s\n' % line
     route = 'namespace nsa\n\nroute r1(Void, Void, Void)\n'
     if l['k'] != 'absent':
         route += '    attrs\n        a1 = %s\n' % render_lit(l)
@@ -145,6 +151,24 @@ def badtype_specs(vec):
             ('nsz9.stone', 'namespace nsz9\n\nroute q(Void, Void, Void)\n')]
 
 
+def attr_value_ok(l, got):
+    """does the value the description carries for the attribute equal the written / declared literal l?"""
+    k = l['k']
+    if k in ('lnull', 'absent'):
+        return got is None
+    if k == 'lint':
+        return type(got) is int and got == INT_ANCHORS[l['r']]
+    if k == 'lfloat':
+        return isinstance(got, float) and got == FLOAT_ANCHORS[l['r']]
+    if k == 'lstr':
+        return got == render_lit(l)[1:-1]
+    if k == 'lbool':
+        return got is l['b']
+    if k == 'ltag':
+        return getattr(got, 'tag_name', None) == l['n']
+    return True         # timestamp text: not judged
+
+
 def subtype_specs(vec):
     c = vec['c']
     a = ['namespace nsa', '', 'struct Base', '    union', '        s S'] + (['        t T'] if c['listed'] else []) + \
@@ -240,8 +264,11 @@ class LitJudge(Judge):
                 self.violation('file_order_' + mode, 'file order changes the result (%s vs %s): %s' % (outs[0][0], outs[1][0], what), ctx)
             return
         try:
-            specs_to_ir([tuple(s) for s in specs])
+            api = specs_to_ir([tuple(s) for s in specs])
             out = 'acc'
+            if self.prop == 'C02':
+                self.judge_attrs(api, norm_abs(obj), what, ctx)
+                return
         except InvalidSpec as e:
             out = 'rej'
             if not str(e.msg).strip():
@@ -258,3 +285,30 @@ class LitJudge(Judge):
             self.violation('refused_' + mode, 'legal spec refused: %s' % what, ctx)
         elif obj['verdict'] == 'rej' and out == 'acc':
             self.violation('accepted_' + mode, 'spec breaking a documented rule accepted: %s' % what, ctx)
+
+
+def _judge_attrs(self, api, a, what, ctx):
+    """C02: the route of the description carries one value per attribute of the schema (inherited ones included): the
+    written value, else the schema default, else null."""
+    if a['verdict'] != 'acc':
+        self.skip('attr_not_judged_' + a['verdict'])
+        return
+    route = api.namespaces['nsa'].routes[0]
+    decl, l = a['decl'], a['l']
+    if decl['t']['k'] == 'routeunion':
+        return
+    want = ['a1'] + (['own'] if a.get('inh') else [])
+    if sorted(route.attrs) != sorted(want):
+        self.violation('route_attrs_keys', 'route carries the attributes %s, the schema declares %s: %s'
+                       % (sorted(route.attrs), sorted(want), what), ctx)
+        return
+    exp = l if l['k'] != 'absent' else decl['d']
+    if not attr_value_ok(exp, route.attrs['a1']):
+        self.violation('route_attr_value', 'route attribute a1 is %r, expected %s: %s'
+                       % (route.attrs['a1'], 'null' if exp['k'] in ('absent', 'lnull') else render_lit(exp), what), ctx)
+    if a.get('inh') and route.attrs['own'] != 'o':
+        self.violation('route_attr_value', 'route attribute own is %r, expected the schema default "o": %s' % (route.attrs['own'], what), ctx)
+    self.count('route_attrs_compared')
+
+
+LitJudge.judge_attrs = _judge_attrs
